@@ -12,6 +12,7 @@ import ZorgVerif.Model.Exec
 import ZorgVerif.Model.Saved
 import ZorgVerif.Model.Zo
 import ZorgVerif.Model.NoteText
+import ZorgVerif.Model.Action
 /-! Line protocol: one JSON request per line on stdin, one JSON answer per line on stdout. -/
 open Lean ZorgVerif
 
@@ -365,6 +366,37 @@ def handleNt (op : String) (j : Json) : Except String Json := do
     | none => pure (Json.mkObj [("none", true)])
   | _ => throw s!"unknown op {op}"
 
+def pairsOf (j : Json) (k : String) : Except String (List (Str × List Str)) := do
+  let a ← arrOf j k
+  a.toList.mapM (fun p => do
+    let kv ← p.getArr?
+    let key ← (kv[0]?.getD Json.null).getStr?
+    let vs ← (kv[1]?.getD Json.null).getArr?
+    let vs ← vs.toList.mapM (fun v => v.getStr?)
+    pure (key.toList, vs.map String.toList))
+
+def handleAction (op : String) (j : Json) : Except String Json := do
+  match op with
+  | "action.open" =>
+    let zdir ← strOf j "zdir"
+    let isZoq ← j.getObjValAs? Bool "isZoq"
+    let line ← strOf j "line"
+    let lineNo ← j.getObjValAs? Nat "lineNo"
+    let option : Option Int := match j.getObjValAs? Int "option" with | .ok k => some k | .error _ => none
+    let zids ← pairsOf j "zids"
+    let ids ← pairsOf j "ids"
+    let rids ← pairsOf j "rids"
+    let lk : Action.Lookup := {
+      zidPage := fun z => (zids.lookup z).bind (·.head?),
+      idPages := fun v => (ids.lookup v).getD [],
+      ridPages := fun v => (rids.lookup v).getD [] }
+    let validDate (s : Str) : Bool := (Date.parseShort s).isSome
+    let ts := Action.targets validDate isZoq line.toList
+    let r := Action.respond zdir.toList lk ts lineNo option
+    pure (Json.mkObj [("lines", Json.arr (r.lines.map jstr).toArray), ("rc", r.rc),
+      ("targets", Json.arr (ts.map (fun t => jstr t.text)).toArray)])
+  | _ => throw s!"unknown op {op}"
+
 def handle (line : String) : Json :=
   match Json.parse line with
   | .error e => Json.mkObj [("driver_error", s!"parse: {e}")]
@@ -384,6 +416,7 @@ def handle (line : String) : Json :=
         else if op.startsWith "saved." then handleSaved op j
         else if op.startsWith "zo." then handleZo op j
         else if op.startsWith "nt." then handleNt op j
+        else if op.startsWith "action." then handleAction op j
         else .error s!"unknown op {op}"
       match r with
       | .ok v => v
